@@ -421,6 +421,14 @@ func GetSignalCells(
 
 	numSignalCells := utils.GetNumberOfSignalCells(bitStream, pos, bitsPerCell)
 
+	// That count is inferred from the trailing bits, which include the CRC and
+	// any padding, so it can be wrong in either direction.  The header's cell
+	// mask says how many signal cells there are.  If the frame is long enough
+	// to hold that many (plus the CRC), use that number.
+	if bitsLeft >= uint(header.NumSignalCells)*bitsPerCell+utils.CRCLengthBits {
+		numSignalCells = header.NumSignalCells
+	}
+
 	if header.MultipleMessage {
 		// The message doesn't contain all the signal cells but there should be
 		// at least one.
